@@ -296,9 +296,16 @@ def _worker(idxs):
         S_, D_, P_ = z3.BitVec("src", 8), z3.BitVec("dst", 8), z3.BitVec("prio", 3)
         addr = [SymInt(z3.ZeroExt(1, S_), 8), SymInt(z3.ZeroExt(1, D_), 8), SymInt(z3.ZeroExt(1, P_), 3)]
 
+        with_identity = (i % 2 == 1) or _G["tier"] == "thorough"
+
         def h():
             mode, m, calls, lg = H.run_def(dec_fn, payload)
-            m.add_data(addr[0], addr[1], addr[2], datetime(2020, 1, 1), None, False, b"\x01\x02")
+            iso = None
+            if with_identity:
+                # a source identity as the decoder builds it from an address claim (largest legal unique number, all NAME fields set)
+                name_ = 2097148 | (229 << 21) | (6 << 32) | (29 << 35) | (130 << 40) | (10 << 49) | (13 << 56) | (4 << 60) | (1 << 63)
+                iso = R.message.IsoName(ns["decode_pgn_60928"](name_), name_)
+            m.add_data(addr[0], addr[1], addr[2], datetime(2020, 1, 1), iso, False, b"\x01\x02")
             ex = EX()
             n0 = len(ex.deferred)
             try:
@@ -496,7 +503,7 @@ def run(tier, seed):
     rep.bounds = {"definitions": "%d fixed-layout definitions (JSON type domain), of which the encodable ones are re-encoded" % len(defs),
                   "payloads": "all payloads the decoder accepts", "dump": "filters of 0..2 entries over %d candidates x a 7-frame history" % len(DUMP_ENTRIES)}
     rep.outside = ["that orjson's output text is syntactically valid JSON (trusted; exercised concretely)", "definitions with variable-length fields",
-                   "messages carrying a source identity (covered by the dataclass clause of J only)"]
+                   "source identities other than the one concrete identity attached to every other definition (thorough: to all)"]
     nproc = 16
     order = sorted(defs, key=lambda i: -len(D.pgns[i].fields))
     parts = run_jobs(rep, _worker, [order[k::nproc] for k in range(nproc)], timeout_s=800)
